@@ -41,3 +41,28 @@ _reg_alpide = register
 def register(X, EXTRA):
     _reg_alpide(X, EXTRA)
     EXTRA.append(lambda F: g_tdh_after_done(F, X))
+
+
+def g_no_panic_fixes(F, X):
+    src = X.strip_comments(X.read(X.FP + "/analyze/validators/its/cdp_running/readout_frame.rs"))
+    body = X.fn_body(src, "store_lane_data")
+    v = None
+    if body is not None:
+        v = bool(re.search(r"if\s+let\s+Some\s*\(\s*\w+\s*\)\s*=\s*self\s*\.\s*alpide_readout_frame\s*\.\s*as_mut\s*\(\s*\)", body)) and ".unwrap()\n            .store_lane_data" not in body \
+            and not re.search(r"as_mut\s*\(\s*\)\s*\.\s*unwrap\s*\(\s*\)", body)
+    F.add("data_word_without_frame_is_ignored", "bool", v, True, "readout_frame.rs store_lane_data: a data word with no open readout frame is not stored (no unwrap of None)")
+    la = X.strip_comments(X.read(X.FP + "/analyze/validators/its/alpide/lane_alpide_frame_analyzer.rs"))
+    body = X.fn_body(la, "do_lane_alpide_checks")
+    v = None
+    if body is not None:
+        m = re.search(r"^\s*if\s+self\s*\.\s*chip_data\s*\.\s*is_empty\s*\(\s*\)\s*\{", body)
+        v = bool(m) and bool(re.search(r"return\s+Err\s*\(", body[:body.find("check_bunch_counters")] if "check_bunch_counters" in body else ""))
+    F.add("lane_without_chip_is_reported", "bool", v, True, "lane_alpide_frame_analyzer.rs do_lane_alpide_checks: a lane without chip data returns a lane error before any check")
+
+
+_reg_alpide2 = register
+
+
+def register(X, EXTRA):
+    _reg_alpide2(X, EXTRA)
+    EXTRA.append(lambda F: g_no_panic_fixes(F, X))
